@@ -29,7 +29,8 @@ PARTIAL = [
     "arithmetic is exercised at 0 and atan(3/4) degrees, not modelled",
     "block models, octrees and drillholes: C13_located_mask_exact / C13_located_none_iff hold for any location list; that "
     "the list is the object's centroids is C17's subject (here: observed and checked against the mid-point formula by the "
-    "oracle); their copy_from_extent (GridObject.copy with a mask) is not modelled",
+    "oracle); copy_from_extent of block models / octrees is modelled for the children's values "
+    "(C13_grid_object_copy_values), of drillholes not",
     "groups: C13_group_copy characterises Group.copy_from_extent given the children's own results; children are "
     "Points/Curve/Surface and one level of sub-group in the correspondence",
     "C13_copy_total excludes objects with per-element text data",
@@ -105,10 +106,50 @@ def detect_fill(repo) -> bool:
     raise RuntimeError("Grid2D.copy_from_extent: unrecognised statements between v_ind and indices")
 
 
+_GFILL = None
+
+
+def detect_grid_fill(repo) -> bool:
+    """GridObject.copy: is the blank array np.full_like(child.values, child.nan_value) (any kind) or the float template
+    np.ones_like(child.values) * np.nan (undefined for str arrays)? (fail-closed on anything else)"""
+    import ast
+    from pathlib import Path
+
+    tree = ast.parse((Path(repo) / "geoh5py/objects/grid_object.py").read_text())
+    fn = None
+    for node in ast.walk(tree):
+        if isinstance(node, ast.ClassDef) and node.name == "GridObject":
+            for sub in node.body:
+                if isinstance(sub, ast.FunctionDef) and sub.name == "copy":
+                    fn = sub
+    if fn is None:
+        raise RuntimeError("GridObject.copy not found")
+    blanks = [st for st in ast.walk(fn) if isinstance(st, ast.Assign) and len(st.targets) == 1 and isinstance(st.targets[0], ast.Name)
+              and st.targets[0].id == "values" and not (isinstance(st.value, ast.Attribute) and st.value.attr == "values")]
+    if len(blanks) != 1:
+        raise RuntimeError("GridObject.copy: expected one construction of the blank values array")
+    src = ast.unparse(blanks[0].value).replace(" ", "")
+    if src == "np.ones_like(child.values)*np.nan":
+        return False
+    if src == "np.full_like(child.values,child.nan_value)":
+        return True
+    raise RuntimeError(f"GridObject.copy: unrecognised blank array {src}")
+
+
 def regenerate(repo):
-    global _FILL
+    global _FILL, _GFILL
     _FILL = detect_fill(repo)
-    return {"tables": {"repair_flags": {"grid_fill_span": _FILL}}}
+    _GFILL = detect_grid_fill(repo)
+    return {"tables": {"repair_flags": {"grid_fill_span": _FILL, "grid_copy_blank_by_kind": _GFILL}}}
+
+
+def _gfill_term():
+    global _GFILL
+    if _GFILL is None:
+        from vlib import common as C
+
+        _GFILL = detect_grid_fill(C.REPO)
+    return cbool(_GFILL)
 
 
 def _fill_term():
@@ -187,8 +228,27 @@ def _gen_mesh_case(rng):
         vals = None if rng.chance(8) else G._gen_vals(rng, kind, n)
         kids.append({"id": i + 1, "assoc": assoc, "kind": kind, "vals": vals})
     ndim = 2 if rng.chance(45) else 3
-    return {"kind": "mesh", "cls": cls, "verts": verts, "cells": cells, "kids": kids,
+    case = {"kind": "mesh", "cls": cls, "verts": verts, "cells": cells, "kids": kids,
             "box": _gen_box(rng, verts, ndim), "inverse": rng.chance(35)}
+    if rng.chance(40):
+        # several actions on the SAME object before the observed query: read the extent and edit the returned array in
+        # place, earlier queries, vertex removals (the bounding box must follow the current vertices)
+        hist, cur = [], verts
+        for _ in range(rng.range(1, 4)):
+            a = rng.weighted([("scribble", 45), ("query", 30), ("rv", 25 if len(cur) > max(2, arity + 1) else 0)])
+            if a == "scribble":
+                hist.append({"scribble": rng.range(1, 3)})
+            elif a == "query":
+                b = [[min(lo, hi), max(lo, hi)] for lo, hi in _gen_box(rng, cur, 2 if rng.chance(50) else 3)]
+                hist.append({"query": b, "inverse": rng.chance(30)})
+            else:
+                idx = rng.sample(list(range(len(cur))), rng.range(1, min(2, len(cur) - 1)))
+                hist.append({"rv": idx})
+                cur = [p for i, p in enumerate(cur) if i not in idx]
+        case["history"] = hist
+        if any("rv" in h for h in hist):
+            case["box"] = _gen_box(rng, cur, ndim)   # aim the observed box at the vertices that are left
+    return case
 
 
 def _gen_grid_case(rng):
@@ -352,8 +412,14 @@ def _gen_located_case(rng):
                      "u": delims(rng.range(1, 3)), "v": delims(rng.range(1, 3)), "z": delims(rng.range(1, 2), -1)})
         lo = [2 * case["origin"][k] for k in range(3)]
         hi = [2 * (case["origin"][k] + d[-1]) for k, d in enumerate((case["u"], case["v"], case["z"]))]
+        # cell data of every kind (values = the first n_cells entries of the pool) and sometimes an object-level child
+        case["kids"] = [{"kind": k, "pool": G._gen_vals(rng, k, 30)} for k in
+                        rng.sample(["float", "int", "bool", "ref", "text"], rng.range(1, 4))]
+        if rng.chance(25):
+            case["kids"].insert(rng.below(len(case["kids"]) + 1), {"kind": "float", "pool": [7], "object": True})
     elif what == "octree":
         case.update({"origin": [rng.range(-3, 3), rng.range(-3, 3), rng.range(-2, 2)], "n": rng.choice([1, 2, 4]), "size": rng.choice([1, 2])})
+        case["kids"] = [{"kind": k, "pool": G._gen_vals(rng, k, 30)} for k in rng.sample(["float", "int", "bool", "ref", "text"], rng.range(1, 3))]
         lo = [2 * x for x in case["origin"]]
         hi = [2 * (x + case["n"] * case["size"]) for x in case["origin"]]
     else:
@@ -487,9 +553,31 @@ def drive_one(case, work):
                 spec["type"] = {"float": "float", "int": "integer", "bool": "boolean"}[kd["kind"]]
             obj.add_data({f"d{kd['id']}": spec})
         init = snap(obj)
+        out = {"init": init}
+        if case.get("history"):
+            hobs = []
+            for h in case["history"]:
+                o = {}
+                try:
+                    if "scribble" in h:
+                        box = obj.extent
+                        if box is not None:
+                            box[0] += float(h["scribble"])
+                            box[1] -= float(h["scribble"])
+                    elif "query" in h:
+                        qe = np.array(h["query"], dtype=float).T
+                        o["mask"] = _mask_obs(lambda: obj.mask_by_extent(qe, inverse=bool(h["inverse"])))
+                    else:
+                        obj.remove_vertices(list(h["rv"]))
+                except Exception as e:  # noqa: BLE001
+                    o["err"] = type(e).__name__
+                e2 = obj.extent
+                o["extent"] = None if e2 is None else [[_int(x) for x in col] for col in np.asarray(e2).T.tolist()]
+                hobs.append(o)
+            out["history"] = hobs
+            out["pre_final"] = snap(obj)
         ext = np.array([[_f(lo), _f(hi)] for lo, hi in case["box"]], dtype=float).T  # shape (2, N)
         inv = bool(case["inverse"])
-        out = {"init": init}
         out["mask"] = _mask_obs(lambda: obj.mask_by_extent(ext, inverse=inv))
         from geoh5py.data import Data
 
@@ -511,6 +599,10 @@ def drive_one(case, work):
             pass
         if os.path.exists(path):
             os.remove(path)
+
+
+def _int(x):
+    return int(x) if float(x).is_integer() else {"float": repr(x)}
 
 
 def _snap_raw(obj):
@@ -541,8 +633,36 @@ def _drive_located(case, ws):
         ob = Drillhole.create(ws, collar=[float(x) for x in case["collar"]])
         locs = np.array([[ob.collar["x"], ob.collar["y"], ob.collar["z"]]], dtype=float)
     ext = np.array(case["box_half"], dtype=float).T / 2.0
-    return {"locs2": [[_r2(x) for x in p] for p in locs.tolist()],
-            "mask": _mask_obs(lambda: ob.mask_by_extent(ext, inverse=bool(case["inverse"])))}
+    out = {"locs2": [[_r2(x) for x in p] for p in locs.tolist()]}
+    if case.get("kids"):
+        n = int(ob.n_cells)
+        out["n_cells"] = n
+        for i, kd in enumerate(case["kids"]):
+            if kd.get("object"):
+                spec = {"association": "OBJECT", "values": G._arr(kd["pool"][:1], kd["kind"])}
+            else:
+                spec = {"association": "CELL", "values": G._arr(kd["pool"][:n], kd["kind"])}
+            if kd["kind"] == "text":
+                spec["type"] = "text"
+            elif kd["kind"] == "ref":
+                spec["type"] = "referenced"
+                spec["value_map"] = {j: f"unit{j}" for j in range(1, 6)}
+            ob.add_data({f"d{i + 1}": spec})
+    out["mask"] = _mask_obs(lambda: ob.mask_by_extent(ext, inverse=bool(case["inverse"])))
+    if case.get("kids"):
+        try:
+            cp = ob.copy_from_extent(ext, inverse=bool(case["inverse"]))
+            if cp is None:
+                out["copy"] = {"none": True}
+            else:
+                by = {getattr(c, "name", None): c for c in cp.children}
+                out["copy"] = {"vals": [None if by.get(f"d{i + 1}") is None or by[f"d{i + 1}"].values is None
+                                        else G._canon_vals(by[f"d{i + 1}"].values) for i in range(len(case["kids"]))],
+                               "n_cells": int(cp.n_cells)}
+        except Exception as e:  # noqa: BLE001
+            out["copy"] = {"error": G.ERR_ALIAS.get(type(e).__name__, type(e).__name__)}
+        out["src_after"] = [G._canon_vals(c.values) for c in ob.children if getattr(c, "name", "").startswith("d")]
+    return out
 
 
 def _drive_group(case, ws):
@@ -723,7 +843,22 @@ def _case_term(case, obs):
             return "false"
         locs = clist(G._pt(p) for p in obs["locs2"])
         fn = "drillhole_mask %s" % G._pt(obs["locs2"][0]) if case["what"] == "drill" else "grid_object_mask %s" % locs
-        return "rmask_eqb (%s %s %s) (%s)" % (fn, _ext_term(case["box_half"]), cbool(case["inverse"]), m)
+        term = "rmask_eqb (%s %s %s) (%s)" % (fn, _ext_term(case["box_half"]), cbool(case["inverse"]), m)
+        if case.get("kids"):
+            n, cp = obs["n_cells"], obs["copy"]
+            ks = clist("(%s, %s)" % (KIND[kd["kind"]], G._vals_term(kd["pool"][:1] if kd.get("object") else kd["pool"][:n])) for kd in case["kids"])
+            if cp.get("none"):
+                o = "Ok None"
+            elif "error" in cp:
+                if cp["error"] not in G.ERRS:
+                    return "false"
+                o = "Err %s" % cp["error"]
+            else:
+                if any(v is None or any(isinstance(x, dict) for x in v) for v in cp["vals"]) or cp["n_cells"] != n:
+                    return "false"
+                o = "Ok (Some %s)" % clist(G._vals_term(v) for v in cp["vals"])
+            term += " && grid_copy_agrees %s %s %s %s %s (%s)" % (_gfill_term(), locs, _ext_term(case["box_half"]), cbool(case["inverse"]), ks, o)
+        return term
     if case["kind"] == "fmesh":
         case, obs = _scaled(case, obs)
     if case["kind"] == "grid":
@@ -765,7 +900,24 @@ def _case_term(case, obs):
     # the object as created must be the object asked for (values padded by add_data are not generated here)
     if obs["init"]["verts"] != [list(p) for p in case["verts"]] or obs["init"]["cells"] != [list(c) for c in case["cells"]]:
         return "false"
-    if obs["after"] != obs["init"]:
+    obj_expr, hist_terms = _obj_term(case), []
+    if case.get("history"):
+        if obs["after"] != obs["pre_final"]:
+            return "false"
+        for h, ho in zip(case["history"], obs["history"]):
+            if "err" in ho:
+                return "false"   # none of the generated actions is refused by the model
+            if "rv" in h:
+                obj_expr = "(state_of (remove_vertices %s %s %s))" % (G._flags_term(), obj_expr, clist(cz(i) for i in h["rv"]))
+            if "query" in h:
+                qm = _rmask_term(ho["mask"])
+                if qm is None:
+                    return "false"
+                hist_terms.append("rmask_eqb (obj_mask %s %s %s) (%s)" % (obj_expr, _ext_term(h["query"]), cbool(h["inverse"]), qm))
+            if ho["extent"] is None or any(isinstance(x, dict) for col in ho["extent"] for x in col):
+                return "false"
+            hist_terms.append("extent_agrees %s %s" % (obj_expr, _ext_term(ho["extent"])))
+    elif obs["after"] != obs["init"]:
         return "false"
     m = _rmask_term(obs["mask"])
     if m is None:
@@ -788,7 +940,8 @@ def _case_term(case, obs):
         if t is None:
             return "false"
         dm.append("(%s, %s)" % (ASSOC[d["assoc"]], t))
-    return "agree13 %s %s %s (%s) %s %s" % (_obj_term(case), _ext_term(case["box"]), cbool(case["inverse"]), m, c, clist(dm))
+    final = "agree13 %s %s %s (%s) %s %s" % (obj_expr, _ext_term(case["box"]), cbool(case["inverse"]), m, c, clist(dm))
+    return " && ".join("(%s)" % t for t in hist_terms + [final])
 
 
 def model_term(case):
@@ -832,6 +985,38 @@ def oracle(case, obs):
         # exact rational comparison: the scaling is fractions.Fraction(x) * (common power-of-two denominator)
         case, obs = _scaled(case, obs)
     fails = []
+    if case.get("history"):
+        # the same object is used for several actions: replay them on a ledger (vertex removal = the complement of the index
+        # set); the extent read after every action must be the bounding box of the CURRENT vertices, earlier queries are
+        # judged like the final one
+        E = {"cls": case["cls"], "verts": [tuple(p) for p in case["verts"]], "cells": [list(c) for c in case["cells"]],
+             "kids": [dict(kd) for kd in case["kids"]]}
+        for n, (h, ho) in enumerate(zip(case["history"], obs["history"])):
+            if "err" in ho:
+                return [{"key": "history-action-raised", "what": f"action {n} {h} raised {ho['err']}"}]
+            if "rv" in h:
+                E, want = G.spec_apply(E, {"op": "rv", "idx": h["rv"]})
+            want_ext = [[min(p[k] for p in E["verts"]), max(p[k] for p in E["verts"])] for k in range(3)]
+            if ho["extent"] != want_ext:
+                return [{"key": "extent-not-bounding-box-of-current-vertices",
+                         "what": f"after action {n} ({h}) the extent reads {ho['extent']}, the vertices span {want_ext}"}]
+            if "query" in h:
+                sub = dict(case, verts=[list(p) for p in E["verts"]], cells=E["cells"], kids=E["kids"], box=h["query"], inverse=h["inverse"])
+                sub.pop("history")
+                mask, keepc, bb_miss, none_q = _expected(sub)
+                om = ho["mask"]
+                if "error" in om:
+                    return [{"key": "mask-raised", "what": f"action {n}: mask_by_extent raised {om['error']}"}]
+                if om["mask"] is None:
+                    if not (bb_miss or none_q):
+                        return [{"key": "none-but-elements-qualify", "what": f"action {n}: mask_by_extent returned None for box {h['query']} although elements qualify (earlier actions: {case['history'][:n]})"}]
+                elif om["mask"] != mask:
+                    return [{"key": "mask-not-exact", "what": f"action {n}: mask {om['mask']} != expected {mask}"}]
+        if obs["after"] != obs["pre_final"]:
+            fails.append({"key": "source-changed", "what": "the source object changed during selection"})
+        case = dict(case, verts=[list(p) for p in E["verts"]], cells=E["cells"], kids=E["kids"])
+        case.pop("history")
+        obs = dict(obs, init=obs["pre_final"])
     box = case["box"]
     if any(lo > hi for lo, hi in box):
         return fails  # the text does not define selection by an inverted box (the code refuses it)
@@ -926,6 +1111,27 @@ def _oracle_located(case, obs):
             return [{"key": "located-none-but-elements-qualify", "what": f"None although locations qualify (box {box})"}]
     elif om["mask"] != q:
         return [{"key": "located-mask-not-exact", "what": f"{case['what']}: mask {om['mask']} != expected {q} for locations {locs}, box {box}, inverse {inv}"}]
+    if case.get("kids"):
+        # copy_from_extent of a block model / octree: same grid, cell data keep their value inside the box and hold the kind's
+        # no-data value outside, object-level data are copied as they are
+        n, cp = obs["n_cells"], obs["copy"]
+        src = [kd["pool"][:1] if kd.get("object") else kd["pool"][:n] for kd in case["kids"]]
+        if obs.get("src_after") != src:
+            return [{"key": "located-source-changed", "what": f"source data {obs.get('src_after')} != {src} after the copy"}]
+        if "error" in cp:
+            text = any(kd["kind"] == "text" and not kd.get("object") for kd in case["kids"])
+            key = "grid-copy-text-raises" if text and cp["error"] == "TypeError" and om["mask"] is not None else "located-copy-raised"
+            return [{"key": key, "what": f"{case['what']}.copy_from_extent raised {cp['error']} (children kinds {[kd['kind'] for kd in case['kids']]})"}]
+        if cp.get("none"):
+            if not (miss or not any(q)):
+                return [{"key": "located-copy-none-but-elements-qualify", "what": "copy_from_extent returned None although cell centres qualify"}]
+            return []
+        if cp["n_cells"] != n:
+            return [{"key": "located-copy-grid-changed", "what": f"the copy has {cp['n_cells']} cells, the source {n}"}]
+        for kd, v, got in zip(case["kids"], src, cp["vals"]):
+            want = v if kd.get("object") else [x if b else (0 if kd["kind"] == "bool" else None) for x, b in zip(v, q)]
+            if got != want:
+                return [{"key": "located-copy-values", "what": f"{kd['kind']} child of the copy holds {got}, expected {want} (mask {q})"}]
     return []
 
 
